@@ -129,3 +129,57 @@ Fixpoint read_final_expect (disarm : bool) (fuel : nat) (meth : bytes) (n : nat)
   end.
 
 Definition is_send (c : cont_signal) : bool := match c with SigSendBody => true | _ => false end.
+
+(* ---------- bytes arriving on an IDLE connection ----------
+
+   While a connection sits in the idle pool its read loop is blocked in Peek with
+   numExpectedResponses = 0; any byte the server sends then is an unsolicited response and the
+   connection is closed (readLoopPeekFailLocked) - it never serves another request.  [guard] =
+   false is the variant in which that test no longer fires (seeded f-m1: the count of
+   outstanding responses is not decremented after a bodiless response).  The state carried
+   between events is the client's connection: None (no usable connection: the next request
+   dials) or Some buf (an idle connection whose read buffer holds buf). *)
+
+Inductive conn_event := EvReq (meth seg : bytes) | EvIdleBytes (s : bytes).
+
+Fixpoint client_run (guard : bool) (conn : option bytes) (evs : list conn_event)
+  : list (option (resp * body_result)) :=
+  match evs with
+  | [] => []
+  | EvIdleBytes s :: more =>
+      match conn with
+      | Some buf => if guard && negb (is_nil s) then client_run guard None more
+                    else client_run guard (Some (buf ++ s)) more
+      | None => client_run guard None more
+      end
+  | EvReq m seg :: more =>
+      let buf := match conn with Some b => b | None => [] end in
+      match exchange m buf seg with
+      | Some (r, b) =>
+          Some (r, b) :: client_run guard (if reuse_real r b then Some (b_rest b) else None) more
+      | None => None :: client_run guard None more
+      end
+  end.
+
+(* the answers a fresh connection per request would give *)
+Fixpoint answers_alone (evs : list conn_event) : list (option (resp * body_result)) :=
+  match evs with
+  | [] => []
+  | EvIdleBytes _ :: more => answers_alone more
+  | EvReq m seg :: more => exchange m [] seg :: answers_alone more
+  end.
+
+(* ---------- reading on after the end of a body ----------
+
+   [body_again]: what the framing reader (transfer.go body) answers to a Read AFTER it has
+   returned its terminal result: a length-delimited body cut short sets sawEOF before it
+   notices the truncation, so it then answers a clean EOF; every other terminal state is
+   repeated.  The client wraps it in bodyEOFSignal, whose first Read error is sticky. *)
+Definition body_again (fr : framing) (first : berr) : berr :=
+  match fr, first with
+  | FrLength _, BUnexpectedEOF => BOk
+  | _, e => e
+  end.
+
+Definition client_reads_again (sticky : bool) (fr : framing) (first : berr) (k : nat) : list berr :=
+  if sticky then repeat first k else repeat (body_again fr first) k.
